@@ -72,3 +72,11 @@ add("C13",
     "DESIGN.md 5/C13", COMMON_TRUST + " Linalg.invert is run-time monitored (A4).",
     "contracts on the real functions; real code on symbolic control points over concrete knot-vector pairs, path-exhaustive, verdict-vs-spec implication by z3 linear arithmetic (bounded in shape)")
 ENGINE_S += ["C06", "C13"]
+
+add("C08",
+    "Contracts on the BaseCurve operator overloads and heavy.MathOperations: (A op B)(u) == A(u) op B(u) as an identity of rational functions in the symbolic "
+    "control points and weights of both operands and u on every common span (+, -, *, /, @ on 2-D points, unary -, scalar and matrix operands on either side); "
+    "operands unmodified; different intervals -> ValueError. " + S_NOTE,
+    "DESIGN.md 5/C08", COMMON_TRUST + " Linalg.lstsq/solve/invert are run-time monitored (A4).",
+    "contracts on the real functions; real code on symbolic control points / weights over concrete knot-vector pairs, identities by normal form (bounded in shape)")
+ENGINE_S += ["C08"]
